@@ -41,4 +41,4 @@ Separate Extraction
   mk_CB mk_FG mk_SL mk_EL mk_SD mk_ED mk_SF mk_EF mk_EFX mk_EFN mk_WD mk_RP mk_BR mk_DP mk_IR mk_LQ mk_HB mk_TR
   IX_IR IX_SL IX_EL IX_WD IX_RP IX_SE IX_WE IX_KW IX_DW IX_SF IX_EF IX_SD IX_ED IX_BR IX_DP IX_LQ
   IX_HB IX_TR IX_SW IX_PH IX_KRR IX_KRO IX_DUS
-  lstep lrun mkLW feed_of_oracle hok2b h_collect_fees_foreign_ata h_borrow_norem h_withdraw_norem h_close_bank_probe h_liquidate_norem.
+  lstep lrun h_transfer_pda mkLW feed_of_oracle hok2b h_collect_fees_foreign_ata h_borrow_norem h_withdraw_norem h_close_bank_probe h_liquidate_norem.
